@@ -331,8 +331,13 @@ class DataFrameSchemaBackend(PolarsSchemaBackend):
             **{k: v.default for k, v in missing_cols_schema.items()}
         ).cast({k: v.dtype.type for k, v in missing_cols_schema.items()})
 
-        # Set column order
-        check_obj = check_obj.select([*schema.columns])
+        # Set column order: declared columns in schema order, followed by the
+        # columns that the schema doesn't declare
+        column_names = get_lazyframe_column_names(check_obj)
+        check_obj = check_obj.select(
+            [c for c in schema.columns if c in column_names]
+            + [c for c in column_names if c not in schema.columns]
+        )
         return check_obj
 
     def strict_filter_columns(
